@@ -79,6 +79,95 @@ def skeleton(fn):
     return [t for _, _, t in sorted(out)]
 
 
+def signature(fn, drop_only_names=None):
+    """structure-insensitive fingerprint of a function: (set of normalised guard / comparison atoms, set of numeric constants,
+    set of callees).  Normalisation: a local assigned exactly once from parameters / globals / constants is inlined; every other local
+    (assigned more than once, augmented, unpacked, a re-assigned parameter, or depending on such a local) becomes `_v`; a conjunction
+    (`a and b`, or nested ifs) is split into its conjuncts; a guard that is a bare local is dropped.  Statement layout, local names,
+    where a comparison is evaluated and trailing `else:` do not matter.  drop_only_names: atoms whose names are exactly this set are left out
+    (with the constants they mention)."""
+    params = {a.arg for a in fn.args.args + fn.args.kwonlyargs}
+    defs = {}
+    for n in ast.walk(fn):
+        if isinstance(n, ast.Assign):
+            for t in n.targets:
+                if isinstance(t, ast.Name):
+                    defs.setdefault(t.id, []).append(n.value)
+                else:
+                    for m in ast.walk(t):
+                        if isinstance(m, ast.Name):
+                            defs.setdefault(m.id, []).extend([None, None])
+        elif isinstance(n, (ast.AugAssign, ast.AnnAssign)):
+            for m in ast.walk(n.target):
+                if isinstance(m, ast.Name):
+                    defs.setdefault(m.id, []).extend([None, None])
+        elif isinstance(n, (ast.For, ast.comprehension)):
+            for m in ast.walk(n.target):
+                if isinstance(m, ast.Name):
+                    defs.setdefault(m.id, []).extend([None, None])
+        elif isinstance(n, ast.NamedExpr):
+            defs.setdefault(n.target.id, []).extend([None, None])
+    OPAQUE = '_v'
+
+    def norm(node, stack=()):
+        class T(ast.NodeTransformer):
+            def visit_Name(self, nd):
+                i = nd.id
+                if i not in defs:
+                    return nd
+                if i in params or len(defs[i]) != 1 or defs[i][0] is None or i in stack:
+                    return ast.Name(id=OPAQUE, ctx=ast.Load())
+                e = norm(defs[i][0], stack + (i,))
+                if any(isinstance(m, ast.Name) and m.id == OPAQUE for m in ast.walk(e)):
+                    return ast.Name(id=OPAQUE, ctx=ast.Load())
+                return e
+        return T().visit(ast.parse(ast.unparse(node), mode='eval').body)
+
+    def conjuncts(node):
+        if isinstance(node, ast.BoolOp) and isinstance(node.op, ast.And):
+            for v in node.values:
+                yield from conjuncts(v)
+        else:
+            yield node
+
+    atoms, dropped_consts = set(), set()
+    tests = []
+    for n in ast.walk(fn):
+        if isinstance(n, (ast.If, ast.While, ast.IfExp)):
+            tests.append(('', n.test))
+        elif isinstance(n, ast.Assert):
+            tests.append(('assert ', n.test))
+        elif isinstance(n, ast.Compare):
+            tests.append(('', n))
+    for pre, t in tests:
+        for c in conjuncts(t):
+            e = norm(c)
+            txt = ast.unparse(e)
+            if txt == OPAQUE:
+                continue
+            names = {m.id for m in ast.walk(e) if isinstance(m, ast.Name)}
+            if drop_only_names is not None and names == set(drop_only_names):
+                dropped_consts |= {repr(m.value) for m in ast.walk(c) if isinstance(m, ast.Constant) and type(m.value) in (int, float)}
+                continue
+            atoms.add(pre + txt)
+    body = fn.body[1:] if fn.body and isinstance(fn.body[0], ast.Expr) and isinstance(getattr(fn.body[0], 'value', None), ast.Constant) else fn.body
+    consts, callees = set(), set()
+    for st in body:
+        for m in ast.walk(st):
+            if isinstance(m, ast.Constant) and type(m.value) in (int, float):
+                consts.add(repr(m.value))
+            elif isinstance(m, ast.Call):
+                f = m.func
+                root = f
+                while isinstance(root, ast.Attribute):
+                    root = root.value
+                txt = ast.unparse(f)
+                if isinstance(root, ast.Name) and root.id in defs and root.id not in params:
+                    txt = OPAQUE + txt[len(root.id):]
+                callees.add(txt)
+    return sorted(atoms), sorted(consts), sorted(callees), sorted(dropped_consts)
+
+
 def default_of(fn, par):
     args = fn.args.args
     defs = fn.args.defaults
@@ -99,38 +188,67 @@ EXPECTED = {
 }
 
 
+EXPECTED_SIG = {
+    'slerp': (['0 <= s <= 1', '_v < 0', 'abs(_v) > K * _eps', 'not 0 <= s <= 1', 's == 0', 's == 1', 'shortest'], ['0', '1', '4'],
+              ['ValueError', 'abs', 'base.getvector', 'math.acos', 'math.sin', 'np.clip', 'np.dot']),
+    'unit': (['abs(_v) < tol * _eps'], ['4'], ['ValueError', 'abs', 'base.getvector', 'np.linalg.norm']),
+    'r2q': (['R[0, 0] >= R[1, 1]', 'R[0, 0] >= R[2, 2]', 'R[1, 1] >= R[2, 2]', '_v >= 0', 'abs(_v) < tol * _eps', 'not base.isrot(R, check=check, tol=tol)'],
+            ['0', '1', '1.0', '2', '2.0'], ['ValueError', 'abs', 'base.isrot', 'eye', 'math.sqrt', 'max', 'np.linalg.norm', 'np.trace']),
+    'isunitvec': (['abs(np.linalg.norm(v) - 1) < tol * _eps'], ['1'], ['abs', 'np.linalg.norm']),
+    # trinterp: its own range test on s (and the constants in it) is executed concolically (pc_trinterp_*), not fixed here: slerp checks the range too
+    'trinterp': (['base.ismatrix(end, (3, 3))', 'base.ismatrix(end, (4, 4))', 'start is None'], None,
+                 ['ValueError', 'base.eye', 'base.ismatrix', 'base.q2r', 'base.r2q', 'base.rt2tr', 'base.slerp', 'base.t2r', 'transl']),
+    'interp': (['0 <= s <= 1', '_v < 0', '_v == 0', 'assert 0 <= s <= 1', 'assert isinstance(dest, UnitQuaternion)', 'dest is not None', 's == 0', 's == 1', 'shortest'],
+               ['0', '1'], ['UnitQuaternion', 'base.eye', 'base.inner', 'float', 'isinstance', 'math.acos', 'math.cos', 'math.sin', 'np.clip']),
+}
+EXPECTED['isunitvec'] = []
+
+
 def consts_from_ast(ctx):
-    """returns dict of constants; raises SkeletonError when a modelled function no longer has the recorded branch skeleton"""
+    """returns (constants, layout_notes).  Fail-closed (SkeletonError) when the structure signature of a modelled function -- its
+    normalised guards / comparisons, numeric constants and callees -- is not the recorded one; a function whose signature is unchanged but
+    whose statement layout (ordered if/assert tests) differs is only noted: the caller escalates the numeric correspondence."""
+    import re
     src = lambda rel: ast.parse(open(os.path.join(REPO, rel)).read())
     qt = src('spatialmath/base/quaternions.py')
     t3 = src('spatialmath/base/transforms3d.py')
     qc = src('spatialmath/quaternion.py')
-    res = {}
-    import re
-    sk = skeleton(_func(qt, 'slerp'))
-    m = re.fullmatch(r'abs\((v\d+)\) > (\d+) \* _eps', sk[-1]) if sk else None
-    if not m:
-        raise SkeletonError(f"slerp: small-angle test is not `abs(theta) > k * _eps`: {sk[-1:]}")
-    res['slerp_k'] = int(m.group(2))
-    sk_n = sk[:-1] + [f'abs({m.group(1)}) > K * _eps']
-    if sk_n != EXPECTED['slerp']:
-        raise SkeletonError(f"slerp: branch skeleton changed: {sk} (recorded {EXPECTED['slerp']})")
-    for name, tree, cls in (('unit', qt, None), ('r2q', qt, None), ('trinterp', t3, None), ('interp', qc, 'UnitQuaternion')):
-        sk = skeleton(_func(tree, name, cls))
+    vt = src('spatialmath/base/vectors.py')
+    res, notes = {}, []
+    for name, tree, cls in (('slerp', qt, None), ('unit', qt, None), ('r2q', qt, None), ('isunitvec', vt, None), ('trinterp', t3, None),
+                            ('interp', qc, 'UnitQuaternion')):
+        fn = _func(tree, name, cls)
+        atoms, consts, callees, _ = signature(fn, ['s'] if name == 'trinterp' else None)
+        if name == 'slerp':
+            ks = [re.fullmatch(r'abs\(_v\) > (\d+) \* _eps', a) for a in atoms]
+            ks = [m for m in ks if m]
+            if len(ks) != 1:
+                raise SkeletonError(f"slerp: no (single) small-angle test of the form `abs(theta) > k * _eps`: {atoms}")
+            k = ks[0].group(1)
+            res['slerp_k'] = int(k)
+            atoms = sorted('abs(_v) > K * _eps' if a == ks[0].group(0) else a for a in atoms)
+            consts = [c for c in consts if c != k]
+        want = EXPECTED_SIG[name]
+        got = (atoms, consts if want[1] is not None else None, callees)
+        if got != want:
+            diff = [f"{lab}: +{sorted(set(g) - set(w))} -{sorted(set(w) - set(g))}" for lab, g, w in
+                    zip(('guards', 'constants', 'callees'), got, want) if g != w and g is not None]
+            raise SkeletonError(f"{name}: structure signature changed ({'; '.join(diff)})")
+        # layout fingerprint (not a verdict)
+        sk = skeleton(fn)
+        if name == 'slerp':
+            sk = [re.sub(r'(abs\(v\d+\) > )\d+( \* _eps)', r'\1K\2', t) for t in sk]
+            sk = [re.sub(r'abs\(v\d+\)', 'abs(v1)', t) if 'K * _eps' in t else t for t in sk]
         if name == 'trinterp':
-            # its own range test on s is executed concolically (pc_trinterp_*), not fixed here: slerp checks the range as well
             sk = [t for t in sk if {n.id for n in ast.walk(ast.parse(t)) if isinstance(n, ast.Name)} != {'s'}]
         if sk != EXPECTED[name]:
-            raise SkeletonError(f"{name}: branch skeleton changed: {sk} (recorded {EXPECTED[name]})")
+            notes.append(f"{name}: same structure signature, different statement layout ({sk}); numeric correspondence escalated")
     res['unit_k'] = int(default_of(_func(qt, 'unit'), 'tol'))
     res['r2q_k'] = int(default_of(_func(qt, 'r2q'), 'tol'))
-    vt = src('spatialmath/base/vectors.py')
-    if skeleton(_func(vt, 'isunitvec')) != [] or ast.unparse(_func(vt, 'isunitvec').body[-1]) != 'return abs(np.linalg.norm(v) - 1) < tol * _eps':
-        raise SkeletonError("isunitvec: body changed")
     res['isunitvec_k'] = int(default_of(_func(vt, 'isunitvec'), 'tol'))
     if default_of(_func(qt, 'slerp'), 'shortest') is not False or default_of(_func(qc, 'interp', 'UnitQuaternion'), 'shortest') is not False:
         raise SkeletonError("default of `shortest` is no longer False")
-    return res
+    return res, notes
 
 
 # =====================================================================================================
@@ -553,8 +671,8 @@ def rel_angle_regime(rng, lo_gap=1e-6):
 
 
 def se3_case(rng, from_identity=False):
-    """correspondence inputs for the whole trinterp chain: relative angle 0, [1e-13,1e-11], [1e-6, pi-1e-6]; canonical quaternions
-    at least 1e-2 away from antipodal"""
+    """correspondence inputs for the whole trinterp chain: relative angle 0, [1e-13,1e-11], [1e-6, pi-1e-6] (trinterp takes the shorter
+    arc since fix 1310ef1, so opposite canonical quaternions are as well conditioned as any other pair)"""
     for _ in range(100):
         R0 = np.eye(3) if from_identity else rot_regime(rng)
         r = rng.random()
@@ -562,9 +680,6 @@ def se3_case(rng, from_identity=False):
         if phi < 1e-6 and phi > 1e-11:
             continue
         R1 = R0 @ rot_from_axis_angle(rand_unit(rng), phi) if phi else R0.copy()
-        d = float(r2q_ref(R0) @ r2q_ref(R1))
-        if d < 0 and PI - math.acos(max(-1.0, d)) < 1e-2:
-            continue
         T0, T1 = np.eye(4), np.eye(4)
         T0[:3, :3], T1[:3, :3] = R0, R1
         T0[:3, 3], T1[:3, 3] = rand_trans(rng, 1e-3, 1e3), rand_trans(rng, 1e-3, 1e3)
@@ -574,7 +689,8 @@ def se3_case(rng, from_identity=False):
 
 def regenerate(ctx):
     info = {}
-    consts = consts_from_ast(ctx)
+    consts, layout_notes = consts_from_ast(ctx)
+    info['layout_notes'] = layout_notes
     g = build(ctx, consts, info)
     paths = trace_range_paths(ctx, info)
     ctext, text = emit(ctx, g, consts, paths)
@@ -604,7 +720,7 @@ def ref_slerp(q0, q1, s):
 
 S_SPECIAL = [0.0, 1.0, 1e-12, 1 - 1e-12]
 S_OUTSIDE = [-1e-9, 1 + 1e-9, -0.5, 1.5, float(np.nextafter(1.0, 2.0)), -5e-324]
-DIRECTED_LONG = [0.7, 0.05, 0.01, 0.002]
+DIRECTED_LONG = [0.7, 0.05, 0.01, 0.002, 1e-6, 1e-9]
 GAP_MIN = 1e-4          # long arcs closer than this to antipodal are outside the property's domain (measured: error ~ eps/gap^2)
 
 
@@ -665,13 +781,8 @@ def oracle(ctx):
                 ctx.fail(f"oracle:vector-s:{cls}.interp:element-differs", f"{cls}.interp(vector s)[k] is not the k-th value", rp)
         except Exception as ex:  # noqa
             kind = type(ex).__name__
-            if kind == 'ValueError' and long_arc:
-                ctx.fail('oracle:pose.interp:long-arc:sequence-element-access-revalidates',
-                         f"{cls}.interp(vector s) returns the right values, but X[k] / iteration / slicing of the returned sequence raises ValueError ({ex}): "
-                         f"SMUserList.__getitem__ rebuilds the element with check=True; q0.q1 = {d:g}", dict(rp, site=cls))
-            else:
-                ctx.fail(f"oracle:vector-s:{cls}.interp:{'long-arc' if long_arc else 'short-arc'}:element-access-raises-{kind}",
-                         f"indexing the result of {cls}.interp(vector s) raises {kind}: {ex}", rp)
+            ctx.fail(f"oracle:vector-s:{cls}.interp:element-access-fails:{kind}",
+                     f"indexing / iterating the result of {cls}.interp(vector s) raises {kind}: {ex}; canonical q0.q1 = {d:g}", rp)
 
     # ------------------------------------------------------------------ 3-D
     N = ctx.n(250, 6000)
@@ -695,27 +806,18 @@ def oracle(ctx):
         qa = q0c if with_start else np.array([1.0, 0, 0, 0])
         d = float(qa @ q1c)
         th_noflip, _ = ref_rel(qa, q1c)
-        halfturn = min(abs(qa[0]), abs(q1c[0])) < 1e-7       # the sign of a canonical quaternion is decided by rounding
         rp = {'T0_hex': hx(T0), 'T1_hex': hx(T1), 'rel_angle': phi}
         dec = 'rel-angle-decade:%d' % max(-12, math.floor(math.log10(phi)))
         W[dec] = W.get(dec, 0) + 1
-        if d < 0 and PI - th_noflip < GAP_MIN and not halfturn:
-            excluded += 1          # antipodal canonical quaternions, the matrix functions do not request the shorter arc
-            continue
-        if halfturn and min(th_noflip, PI - th_noflip) < GAP_MIN:
-            excluded += 1
-            continue
-        gap = min(PI - th_noflip, th_noflip if halfturn else PI)
-        # base.r2q loses up to ~1.5e-8 (sqrt eps) of a rotation within ~1e-7 of the identity or of a half turn (property C04's
-        # matter); slerp amplifies an error of its inputs by 1/sin(theta): near-antipodal pairs with such an end are left out too
-        sqrt_eps_end = min(abs(qa[0]), abs(q1c[0]), float(np.linalg.norm(qa[1:])) if with_start else 1.0, float(np.linalg.norm(q1c[1:]))) < 1e-6
-        if sqrt_eps_end and gap < 0.05:
-            W['excluded-near-antipodal-with-r2q-loss'] = W.get('excluded-near-antipodal-with-r2q-loss', 0) + 1
-            continue
-        tol = 1e-9 if gap >= 1e-2 else 1e-6
+        # since fix 1310ef1 trinterp asks slerp for the shorter arc: whatever sign r2q gives the two quaternions, the rotation must follow
+        # the shorter arc (quaternion angle <= pi/2, well conditioned) -- no pair of the domain is left out any more
+        short_q = qa if d >= 0 else -qa
+        either_arc = abs(d) < 1e-9                 # the two arcs have the same length: a half turn apart
+        if d < 0:
+            W['pairs-with-opposite-canonical-quaternions'] = W.get('pairs-with-opposite-canonical-quaternions', 0) + 1
+        tol = 1e-9
         scale_t = max(1.0, float(np.max(np.abs(np.r_[t0, t1]))))
         ss = svals(rng) if it >= len(DIRECTED_LONG) else S_SPECIAL + [0.3, 0.5, 0.7]
-        arcs_seen = set()
         for s in ss:
             rps = dict(rp, s=float(s).hex(), with_start=with_start)
             M = call('base.trinterp', lambda: base.trinterp(T0 if with_start else None, T1, s), rps)
@@ -735,18 +837,17 @@ def oracle(ctx):
             worst('translation', te)
             if not te <= 1e-9:
                 ctx.fail('oracle:translation:trinterp', f"translation is not (1-s) t0 + s t1: rel. error {te:g}", rps)
-            # rotation: R0 exp(s log(R0' R1)) along one of the two arcs, the same for every s of the pair
-            errs = {}
-            for arc, qs_ in (('as-is', qa), ('flipped', -qa)):
-                errs[arc] = float(np.max(np.abs(M[:3, :3] - q2r_ref(ref_slerp(qs_, q1c, s)))))
-            arc = min(errs, key=errs.get)
-            worst('rotation', errs[arc])
-            if not errs[arc] <= 1e-6:
-                ctx.fail('oracle:rotation:trinterp', f"R(s) is not R0 exp(s log(R0' R1)) on either arc: error {errs[arc]:g} (tol 1e-6)", rps)
-            elif abs(errs['as-is'] - errs['flipped']) > 1e-5:
-                arcs_seen.add(arc)
-            # axis and angle of R0' R(s) against those of R0' R1 (arc as taken)
-            qs_ = qa if arc == 'as-is' else -qa
+            # rotation: R0 exp(s log(R0' R1)) along the SHORTER arc
+            cands = (short_q, -short_q) if either_arc else (short_q,)
+            errs = [float(np.max(np.abs(M[:3, :3] - q2r_ref(ref_slerp(c_, q1c, s))))) for c_ in cands]
+            kbest = int(np.argmin(errs))
+            worst('rotation', errs[kbest])
+            if not errs[kbest] <= 1e-6:
+                ctx.fail('oracle:rotation:trinterp', f"R(s) is not R0 exp(s log(R0' R1)) along the shorter arc: error {errs[kbest]:g} (tol 1e-6); "
+                         f"canonical q0.q1 = {d:g}", rps)
+            rot_ok = errs[kbest] <= 1e-6
+            # axis and angle of R0' R(s) against those of R0' R1
+            qs_ = cands[kbest]
             th, ax = ref_rel(qs_, q1c)
             qrel = r2q_ref(A0[:3, :3].T @ M[:3, :3])
             ang = 2 * math.atan2(float(np.linalg.norm(qrel[1:])), qrel[0])
@@ -767,7 +868,6 @@ def oracle(ctx):
             if s == 1.0 and not np.max(np.abs(M - T1)) <= 1e-6 * scale_t:
                 ctx.fail('oracle:endpoint:trinterp:s1', f"trinterp at s=1 is not the end: {np.max(np.abs(M - T1)):g}", rps)
             # agreement: pose class, slerp on the library's quaternions, UnitQuaternion.interp
-            rot_ok = errs[arc] <= 1e-6
             X = pose_interp('SE3', lambda: (SE3(T1, check=False).interp(s, start=SE3(T0, check=False)) if with_start else SE3(T1, check=False).interp(s)),
                             rot_ok, d < 0, rps, d)
             if X is not None:
@@ -783,10 +883,10 @@ def oracle(ctx):
                 else:
                     if not valid_so3(Rs, tol):
                         ctx.fail('oracle:validity:trinterp(SO3)', f"trinterp(SO3) result is not in SO(3) to {tol:g}", rps)
-                    e3 = float(min(np.max(np.abs(Rs - q2r_ref(ref_slerp(sg * qa, q1c, s)))) for sg in (1, -1)))
+                    e3 = float(min(np.max(np.abs(Rs - q2r_ref(ref_slerp(c_, q1c, s)))) for c_ in cands))
                     worst('rotation-so3', e3)
                     if not e3 <= 1e-6:
-                        ctx.fail('oracle:rotation:trinterp(SO3)', f"SO(3) R(s) is not R0 exp(s log(R0' R1)) on either arc: error {e3:g}", rps)
+                        ctx.fail('oracle:rotation:trinterp(SO3)', f"SO(3) R(s) is not R0 exp(s log(R0' R1)) along the shorter arc: error {e3:g}", rps)
                     if not np.max(np.abs(Rs - M[:3, :3])) <= 1e-9:
                         ctx.fail('oracle:agree:trinterp(SO3)/trinterp(SE3)', f"the SO(3) case differs from the rotation of the SE(3) case by {np.max(np.abs(Rs - M[:3, :3])):g}", rps)
                     if s == 0.0 and not np.max(np.abs(Rs - A0[:3, :3])) <= 1e-6:
@@ -801,18 +901,18 @@ def oracle(ctx):
                             ctx.fail('oracle:agree:SO3.interp', "SO3.interp differs from base.trinterp on the 3x3 matrices", rps)
             lq0 = base.r2q(R0) if with_start else np.array([1.0, 0, 0, 0])
             lq1 = base.r2q(R1)
-            qsl = call('base.slerp', lambda: base.slerp(lq0, lq1, s), rps)
+            qsl = call('base.slerp', lambda: base.slerp(lq0, lq1, s, shortest=True), rps)
             if qsl is not None:
                 ctx.count('oracle:agree:slerp')
                 e = np.max(np.abs(base.q2r(qsl) - M[:3, :3]))
                 worst('agree:slerp', e)
                 if not e <= 1e-6:
-                    ctx.fail('oracle:agree:slerp', f"q2r(slerp(r2q R0, r2q R1, s)) differs from trinterp by {e:g}", rps)
+                    ctx.fail('oracle:agree:slerp', f"q2r(slerp(r2q R0, r2q R1, s, shortest=True)) differs from trinterp by {e:g}", rps)
                 if not abs(np.linalg.norm(qsl) - 1) <= tol:
                     ctx.fail('oracle:validity:slerp', f"slerp result has norm {np.linalg.norm(qsl)!r}", rps)
-            long_arc = float(lq0 @ lq1) < 0
+            long_arc = False          # shortest=True: never a long arc
             try:
-                U = (UnitQuaternion(lq0).interp(s, dest=UnitQuaternion(lq1)) if with_start else UnitQuaternion(lq1).interp(s))
+                U = (UnitQuaternion(lq0).interp(s, dest=UnitQuaternion(lq1), shortest=True) if with_start else UnitQuaternion(lq1).interp(s, shortest=True))
                 ctx.count('oracle:agree:UnitQuaternion.interp')
                 e = np.max(np.abs(U.R - M[:3, :3]))
                 worst('agree:uq', e)
@@ -823,8 +923,6 @@ def oracle(ctx):
                 where = 'long-arc' if long_arc else 'short-arc'
                 ctx.fail(f"oracle:UnitQuaternion.interp:{where}:raises-{kind}",
                          f"UnitQuaternion.interp raises {kind} ({ex}) for q0.q1 = {float(lq0 @ lq1):g}, s = {s}", rps)
-        if len(arcs_seen) > 1:
-            ctx.fail('oracle:rotation:trinterp:arc-changes-with-s', "the arc taken is not the same for every s of one pair", rp)
         # vector s gives the sequence
         sv = np.array(ss)
         for cls, C, E0, E1 in (('SE3', SE3, T0, T1), ('SO3', SO3, R0, R1)):
@@ -863,7 +961,6 @@ def oracle(ctx):
             must_raise('base.trinterp(SO3)', lambda: base.trinterp(R0, R1, so), ro)
             must_raise('base.trinterp(SO3,start=None)', lambda: base.trinterp(None, R1, so), ro)
             must_raise('SO3.interp', lambda: SO3(R1, check=False).interp(so, start=SO3(R0, check=False)), ro)
-    W['excluded-antipodal'] = excluded
 
     # ------------------------------------------------------------------ quaternion level (shortest on / off, long arcs)
     NQ = ctx.n(400, 10000)
@@ -1010,6 +1107,9 @@ def run(ctx):
             g = None
     if g is not None:
         ctx.stats['consts'] = consts
+        escalate = bool(info.get('layout_notes'))
+        for n_ in info.pop('layout_notes', []):
+            ctx.notes.append(n_)
         ctx.stats.update(info)
         for fn, txt in (('Consts_C11.v', ctext), (MOD + '.v', text)):
             rc, out, err, dt = ctx.coqc(ctx.write_gen(fn, txt))
@@ -1020,6 +1120,6 @@ def run(ctx):
     if g is not None:
         ctx.prove('theories/Props/C11.v')
         with ctx.timed('correspond'):
-            sym_num(ctx, g, MOD, ctx.n(150, 2500))
+            sym_num(ctx, g, MOD, 2500 if escalate else ctx.n(150, 2500))
     with ctx.timed('oracle'):
         oracle(ctx)
